@@ -45,6 +45,26 @@ Proof.
            C05_chars_obl C05_strict_obl gen_national_total txt c C05_guard_b_obl).
 Qed.
 
+
+(* ... and its errors still name a defect: either one of the text as before, or - every ISO 13616 check having passed -
+   the error is the national check's own (for the 22 countries with a published rule C06 shows that this happens exactly
+   when the rule fails; for German banks C07) *)
+Lemma C05_nat_last_obl : nat_last (ic_steps the_iban_cfg) = true.
+Proof. vm_cast_no_check (eq_refl true). Qed.
+
+Theorem C05_iban_named_national : forall txt ex,
+  iban_new the_env the_iban_cfg the_table the_national txt false true = Err ex ->
+  iban_defect the_table ex (clean the_env txt) = true
+  \/ (iso_ok the_table (clean the_env txt) = true
+      /\ the_national (iban_country_code (clean the_env txt)) (iban_bban the_env (clean the_env txt)) = Err ex).
+Proof.
+  intros txt ex H. unfold iban_new in H. cbn [bind] in H.
+  destruct (iban_validate the_env the_iban_cfg the_table the_national true (clean the_env txt)) eqn:E;
+    cbn [bind] in H; try discriminate. inversion H; subst.
+  exact (iban_named_b the_env the_iban_cfg the_table the_national env_obl env_alpha_obl cfg_obl table_obl _ _
+           C05_nat_last_obl (clean_cleaned the_env env_obl txt) E).
+Qed.
+
 (* is_valid never raises, and is true exactly when validated construction succeeds *)
 Theorem C05_iban_is_valid : forall national txt,
   exists b, iban_is_valid the_env the_iban_cfg the_table national (clean the_env txt) = Ok b
@@ -87,6 +107,7 @@ Qed.
 Print Assumptions C05_iban_total.
 Print Assumptions C05_national_total.
 Print Assumptions C05_iban_total_national.
+Print Assumptions C05_iban_named_national.
 Print Assumptions C05_iban_is_valid.
 Print Assumptions C05_iban_named.
 Print Assumptions C05_bic_total.
